@@ -543,3 +543,19 @@ Theorem C20_undo_own_shift_refuted :
     = ([(1%Z, s_settings)], 1).
 Proof. exact undo_own_shift_refuted. Qed.
 Print Assumptions C20_undo_own_shift_refuted.
+
+(** * Round 3 (seeded change C20-l): depth is unbounded *)
+
+Theorem C20_no_depth_bound_in_source : gen_aries_int_literals = [].
+Proof. exact gen_aries_no_depth_bound. Qed.
+Print Assumptions C20_no_depth_bound_in_source.
+
+(** [C20_router_serve_spec] holds for routes and paths of any depth; at depth
+    40: the file /a/a/.../a (40 segments) is served for exactly that path,
+    and a request one segment longer misses. *)
+Definition deep_path (n : nat) : str := concat (repeat (slash :: s_a) n).
+Example ex_depth_40 :
+  nested dispatch_cond method_reject [] 8 [CtxSeqProofs.ex_router (deep_path 40) 1] 0 (new_ctx (deep_path 40) s_get) = (1%Z, [], 0) /\
+  nested dispatch_cond method_reject [] 8 [CtxSeqProofs.ex_router (deep_path 40) 1] 0 (new_ctx (deep_path 41) s_get) = ((-1)%Z, [], 1) /\
+  length (c_routes (new_ctx (deep_path 41) s_get)) = 41%nat.
+Proof. vm_compute. repeat split; reflexivity. Qed.
